@@ -276,12 +276,29 @@ def fixsignsRefComp [Add α] [Mul α] [Neg α] [Zero α] [One α] [LT α] [Decid
     | .ok (some endpt) =>
       .ok (((List.range endpt).map fun i => sortIdx.getD i 0).foldl (fun K n => negCol K n r) A)
 
-/-- `K.fixsigns(other)` (the receiver afterwards; `other` is copied, not touched). -/
+/-- `K.fixsigns(other)` (the receiver afterwards; `other` is copied, not touched).
+`fixed = true` is the current code, which first checks
+`self.shape != other.shape or other.ncomponents > self.ncomponents` (b8c1128). -/
 def fixsignsRefG [Add α] [Mul α] [Div α] [Neg α] [Zero α] [One α] [LT α] [DecidableLT α]
     (S : Services α) (fixed : Bool) (K other : Ktensor α) : Except Reject (Ktensor α) :=
+  if fixed && (K.shape != other.shape || decide (K.ncomp < other.ncomp)) then .error .reject
+  else
   match normalize S K none false .two none, normalize S other none false .two none with
   | .ok A, .ok B => (List.range B.ncomp).foldlM (fixsignsRefComp S fixed B) A
   | _, _ => .error .reject
+
+/-- The sign scores of component `r` against a reference: `A_n[:, r] · B_n[:, r]` for every mode. -/
+def refScores [Add α] [Mul α] [Zero α] (A B : Ktensor α) (r : Nat) : List α :=
+  (List.range A.ndims).map fun n => dot ((A.factors.getD n []).col r) ((B.factors.getD n []).col r)
+
+/-- The alignment normal form of component `r` (executable): a mode whose column is negatively
+correlated with the reference's column is the only such mode, and no other mode has a score of
+smaller magnitude (`-s_n ≤ s_m` for every other mode `m`). -/
+def alignedComp [Add α] [Mul α] [Neg α] [Zero α] [LT α] [DecidableLT α] (A B : Ktensor α) (r : Nat) : Bool :=
+  let s := refScores A B r
+  (List.range s.length).all fun n =>
+    !(decide (s.getD n 0 < 0)) ||
+      (List.range s.length).all fun m => m == n || !(decide (s.getD m 0 < -(s.getD n 0)))
 
 def fixsignsRef [Add α] [Mul α] [Div α] [Neg α] [Zero α] [One α] [LT α] [DecidableLT α]
     (S : Services α) (K other : Ktensor α) := fixsignsRefG S true K other
@@ -491,6 +508,14 @@ def score [Add α] [Sub α] [Mul α] [Div α] [Neg α] [Zero α] [One α] [LT α
           match arrange S A none (some perm) with
           | .ok A' => .ok ⟨best, A', flag, perm⟩
           | .error e => .error e
+
+/-- `A.score(B, weight_penalty, threshold, greedy)`: `assert greedy` is the first statement —
+only the greedy matching is implemented. -/
+def scoreG [Add α] [Sub α] [Mul α] [Div α] [Neg α] [Zero α] [One α] [LT α] [DecidableLT α]
+    (S : Services α) (ten : α) (thrDefault : Nat → α) (natCast : Nat → α) (K other : Ktensor α)
+    (weightPenalty : Bool) (threshold : Option α) (greedy : Bool) : Except Reject (ScoreResult α) :=
+  if !greedy then .error .reject
+  else score S ten thrDefault natCast K other weightPenalty threshold
 
 end Ktensor
 end Pyttb
